@@ -72,6 +72,11 @@ BalancedLayout(P, meta) ==
              ELSE IF n = 1 THEN (IF P.lk = "raw" /\ meta THEN InnerNode(<<RawLeaf(P.sz[1], 0)>>, 0)
                                  ELSE Leaf(P.lk, "file", P.sz[1], 0))
              ELSE BalSub(BalDepth(n, P.w), 1, n, 0, P, "file"), meta)
+\* The documentation does not say how a <= 1-chunk raw-leaf file carries metadata; besides the File node linking the
+\* raw leaf, a single dag-pb leaf holding the bytes inline (what the importer does without raw leaves) is accepted too.
+BalancedAlso(P, meta) ==
+    IF Len(P.sz) <= 1 /\ P.lk = "raw" /\ meta
+    THEN {WithMeta(PbLeaf(IF Len(P.sz) = 0 THEN 0 ELSE P.sz[1], 0, "file"), TRUE)} ELSE {}
 \* as built (open finding C07-rawroot-meta): the bare raw root is kept and the metadata is dropped
 BalancedLayoutAsBuilt(P, meta) ==
     LET n == Len(P.sz) IN
